@@ -121,6 +121,7 @@ func checkC19(c *Ctx) {
 
 	// ---- decision table
 	w := &an.Walker{Fn: h}
+	w.AliasTupleHelpers() // `want, ok := bindPassword(u)` is seen as its condition / its value
 	atoms := w.CondAtoms()
 	msg := "(*Request).GetSimpleBindMessage($$1)"
 	elem := "$0.users[*]"
